@@ -3,7 +3,7 @@ from props import lifecycle
 
 
 def check(run):
-    return lifecycle.check(run, "C13", ["starttls", "starttls2", "starttls-adversarial"])
+    return lifecycle.check(run, "C13", ["starttls", "starttls2", "starttls-adversarial", "long-starttls"])
 
 
 def replay(run, path):
